@@ -10,6 +10,18 @@ CHECKS = {
  "C02": ("E1 structure explorer", "exhaustive tree enumeration x ambient/thermal/loss-flag/phase menu on the real solver; energy book-keeping identities evaluated on every returned table",
          "All book-keeping identities are checked on every row and per system for every enumerated tree, polarity, source resistance, ambient temperature and single-component phase configuration.",
          "identities are evaluated on the table alone (no reference solver); palettes; node bound", "3"),
+ "C03": ("E1 structure explorer", "exhaustive enumeration of trees x solver-settings menu, overload trees and a modest-drop family on the real solver; residual re-evaluation of every law, polarity of passive elements, sweep counting",
+         "Every (tree, vtol, itol, maxiter) combination of the menu is executed; the outcome must be an exception of the documented kind or a table that reproduces itself under one more law evaluation; overloads at every position; liveness against an independent reference solver.",
+         "residual bound 10x requested tolerance; reference solver decides family membership only; palettes; node bounds", "3"),
+ "C04": ("E1 structure explorer", "exhaustive enumeration of trees x dead-element position x cause of death on the real solver; exact-zero and exact-sleep-power oracle on every row",
+         "For every position of every enumerated tree each way of killing the rail is applied and every row below must be exactly zero while siblings stay lawful.",
+         "one dead cause at a time; palettes; node bounds", "3"),
+ "C05": ("E1 structure explorer", "exhaustive enumeration of all PMux input tuples (1..4 inputs x input kind x live/dead cause x rs form x rails) on the real solver, two phases each",
+         "All 9^k input-option tuples for k<=4 are solved; selection, attribution of the mux current, reported parent / rail / domain are compared with the first-live rule derived from the case description.",
+         "inputs at most one component above the mux; one palette per run", "3"),
+ "C06": ("E1 structure explorer", "exhaustive product of per-component phase configurations over enumerated trees on the real solver; per-phase law oracle + single-phase and phase-free projection differentials",
+         "Every assignment of {none, every subset of phases} to every component of every enumerated tree is solved; each phase is checked against the statement's phase behaviour and against an equivalent phase-free system built through the public API.",
+         "trees n<=2 (mid alphabet) / n=3 (deep alphabet) in quick; one palette per run", "3"),
 }
 NOT_YET = {}
 ALL = ["C%02d" % i for i in range(1, 21)]
